@@ -851,5 +851,21 @@ def check(run, project):
     discarded_generators(run, project, "Q7", modules=(PRETTY, EVENTS, "tpmstream.io.binary.unmarshal"))
     from .shared import undefined_names
     undefined_names(run, project, "Q6", (PRETTY, EVENTS, "tpmstream.io.binary.unmarshal"), what="the printer fails instead of printing")
+    # the two methods of a response code the printers call - its text form for the value column, attributes() for the bit
+    # rows - are walked path by path (the symbolic walk of C18): a local read on a path that never assigned it stops the
+    # printer with UnboundLocalError for every code of that path
+    from . import c18
+    try:
+        rc_mod, fails = c18.path_failures(project)
+    except AnalysisError as ex:
+        rc_mod, fails = None, []
+        run.info(f"Q6: the response-code methods could not be walked ({ex}); their termination is not judged here")
+    for meth, local, node, codes in fails:
+        run.ob("Q6", False, f"TPM_RC.{meth} terminates for every code",
+               f"TPM_RC.{meth} reads the local `{local}` on a path that never assigned it: UnboundLocalError for {len(codes)} response codes "
+               f"(low 12 bits), e.g. {', '.join(hex(c_) for c_ in codes[:4])} - the printer fails instead of printing", module=rc_mod,
+               node=node, func=f"TPM_RC.{meth}", construct=f"unbound-local: {local}")
+    if rc_mod is not None and not fails:
+        run.ob("Q6", True, "TPM_RC.__format__ / attributes() assign every local before use on every path")
     run.floor("Q1", 15)
     run.floor("Q3", 60)
